@@ -12,6 +12,10 @@ import Qryn.Proofs.TraceQLTree
 import Qryn.Proofs.PromSelect
 import Qryn.Proofs.ProfSelector
 import Qryn.Prof.SelectorCtx
+import Qryn.Proofs.ConfineTempo
+import Qryn.Proofs.ConfineProf
+import Qryn.Proofs.Tail
+import Qryn.Gen.VersionSites
 /-! # C13 — every read is confined to the requested time window and signal type
 
 `Confine.confined` is a structural predicate on statements (every base-table scan carries timestamp
@@ -376,5 +380,255 @@ theorem traceql_results_in_window (o : Oracles) (ao : AggOracles) (hp : TraceQL.
     `From ≤ timestamp_ns ≤ To`. -/
 theorem prom_samples_in_window (fromNs toNs ts : Int) :
     Prom.scanHolds fromNs toNs ts = true ↔ fromNs ≤ ts ∧ ts ≤ toNs := Prom.scanHolds_iff fromNs toNs ts
+
+end Qryn.C13
+
+/-! ## the legacy Tempo search (`GET /api/search?tags=…`): `Tempo.planSearch`, tied byte for byte to `TempoService.Search`
+    (→ `dbVersion.GetVersionInfo` → `SQLIndexQuery` + `GetTracesQuery`) in every version state by the `model-tempo` stream -/
+namespace Qryn.C13
+open Qryn Qryn.Sql Qryn.Confine Qryn.Tempo
+
+/-- **tempo_search_confined.** For EVERY request of the legacy Tempo search — any tag list (also none, also an empty one),
+    any limit, any duration bounds, any window with positive ends (the controller passes `start`/`end` seconds or
+    now − 6 h / now), both table layouts — and EVERY version state of the database (any `settings` rows, any table list):
+    the read of the span table carries `start_time_unix_nano > from` and `<= to` (`start_time_unix_nano` being the alias of
+    `timestamp_ns` in the same select), whether or not an index request is given; and every per-tag sub-select over
+    `tempo_traces_attrs_gin` carries `date >= toDate(UTC day of from)`, `date <= toDate(UTC day of to)` and no other
+    comparison on the date column (so no index row of a day the window touches is cut off, `date_lower_covers` /
+    `date_upper_covers`). The version state only adds conjuncts (`timestamp_ns`, `duration` of the index rows). -/
+theorem tempo_search_confined (cfg : Cfg) (r : SearchReq) (ver : VersionInfo) (h : SearchCfg cfg r)
+    (hf : 0 < r.fromNs) (ht : 0 < r.toNs) : searchConfined cfg (winSearch r) (planSearch r ver) = true :=
+  planSearch_confined cfg r ver h hf ht
+
+/-- **tempo_search_results_in_window.** Semantic form, over the meaning `Tempo.searchRows` of the statement (alias columns
+    usable in WHERE, tuple `IN` over the joined index sub-selects, stable ORDER BY, LIMIT): for every database, every
+    request and every version state each returned row is a span row and its `start_time_unix_nano` is an integer in
+    `(from, to]` — no span from outside the window, whatever the index contains. -/
+theorem tempo_search_results_in_window (o : Oracles) (db : SearchDb) (r : SearchReq) (ver : VersionInfo)
+    (hf : 0 < r.fromNs) (ht : 0 < r.toNs) (row : Row) (h : row ∈ searchRows o db (planSearch r ver)) :
+    (∃ s ∈ db.spans, row = aliasRow o searchCols s) ∧
+    ∃ ts, row.get "start_time_unix_nano" = .int ts ∧ r.fromNs < ts ∧ ts ≤ r.toNs :=
+  planSearch_rows_in_window o db r ver hf ht row h
+
+/-- **tempo_span_bounded_sound.** The span-scan rule of `searchConfined` is sound for `Tempo.searchRows` on ANY statement of
+    the shape (not only on plans of the model — it is what the driver applies to the statements the REAL code sends, read back
+    from their text): when `spanBounded w st` holds, every returned row has an integer timestamp column `≥ from − slack` and
+    one `≤ to + slack`, provided the span table has no column named like a SELECT-list alias (then an alias in WHERE means the
+    aliased column, as in ClickHouse). -/
+theorem tempo_span_bounded_sound (o : Oracles) (w : Window) (db : SearchDb) (st : SearchStmt) (hb : spanBounded w st = true)
+    (hA : ∀ s ∈ db.spans, ∀ a ∈ (aliasList st.cols).map (·.1), s.lookup a = none)
+    (row : Row) (h : row ∈ searchRows o db st) :
+    (∃ c ts, isTsCol c = true ∧ row.get c = .int ts ∧ w.fromNs - w.slackNs ≤ ts) ∧
+    (∃ c ts, isTsCol c = true ∧ row.get c = .int ts ∧ ts ≤ w.toNs + w.slackNs) :=
+  spanBounded_sound o w db st hb hA row h
+
+/-- … and that column is the span's own `timestamp_ns` (the table has no column of the alias' name) -/
+theorem tempo_search_alias_is_timestamp (o : Oracles) (s : Row) (h : s.lookup "start_time_unix_nano" = none) :
+    (aliasRow o searchCols s).get "start_time_unix_nano" = s.get "timestamp_ns" :=
+  aliasRow_start o s h
+
+/-- **tempo_version_gate.** The version state as `GetVersionInfo` + `IsVersionSupported` decide it: a feature is supported
+    for a window iff the LAST `type='update'` settings row of that name whose value parses as an int64 (Unix seconds)
+    satisfies `value · 10⁹ ≤ from` in int64 arithmetic; without such a row it is supported for no window. The end of
+    the window is not looked at, nor is the table list (which only concerns `v5`). -/
+theorem tempo_version_gate (rows : List (Bytes × Bytes)) (tables : List Bytes) (fromNs : Int) :
+    isVersionSupported (versionInfo rows tables) v2name fromNs =
+      (match lastParsed v2name rows with
+       | some t => decide (wrap64 (t * 1000000000) ≤ fromNs)
+       | none => false) :=
+  isVersionSupported_versionInfo rows tables v2name fromNs (by decide +kernel)
+
+/-- **tempo_index_bounded_iff_v2.** The index request carries timestamp bounds (`timestamp_ns >= from`, `<= to` in each
+    per-tag sub-select) exactly when there is at least one tag and tempo_v2 is supported for the window; in every other
+    version state it is confined by whole UTC days only. -/
+theorem tempo_index_bounded_iff_v2 (r : SearchReq) (ver : VersionInfo) (tags : List Tag) (hf : 0 < r.fromNs) (ht : 0 < r.toNs) :
+    idxBounded (winSearch r) (idxQuery r ver tags) = (!tags.isEmpty && isVersionSupported ver v2name r.fromNs) :=
+  idxBounded_iff r ver tags hf ht
+
+/-- **idx_only_confined_iff.** COUNTER-PATTERN (seeded change C13-4, not the code): a span read that drops its own time
+    conjuncts whenever an index request is given is confined exactly in the version states of
+    `tempo_index_bounded_iff_v2` — not when the settings row is absent, unparsable, or newer than the window start. -/
+theorem idx_only_confined_iff (cfg : Cfg) (r : SearchReq) (ver : VersionInfo) (tags : List Tag) (h : SearchCfg cfg r)
+    (htags : r.tags = some tags) (hf : 0 < r.fromNs) (ht : 0 < r.toNs) :
+    searchConfined cfg (winSearch r) (planSearchIdxOnly r ver) = (!tags.isEmpty && isVersionSupported ver v2name r.fromNs) :=
+  idx_only_confined cfg r ver tags h htags hf ht
+
+/-- a window of one second on 1970-01-02, one tag `k=v`, no tempo_v2 row -/
+def cexReq : SearchReq := ⟨some [⟨[107], .eq, [118]⟩], 0, 0, 10, 90000000000000, 90001000000000, false, "db", "tempo_traces", "tempo_traces_dist", false⟩
+/-- one span in the last second of that day, with its index row -/
+def cexDb : SearchDb :=
+  ⟨[[("trace_id", .str [1]), ("span_id", .str [2]), ("service_name", .str []), ("name", .str []),
+     ("timestamp_ns", .int 172799000000000), ("duration_ns", .int 5)]],
+   [[("date", .str (Time.formatDate 172799)), ("key", .str [107]), ("val", .str [118]), ("trace_id", .str [1]),
+     ("span_id", .str [2]), ("timestamp_ns", .int 172799000000000), ("duration", .int 5)]]⟩
+def cexOracles : Oracles := ⟨fun _ _ => false, fun _ => [], fun _ => false, fun _ _ _ => false, id, fun _ => 0, fun _ => 0, fun _ _ => [], fun _ _ => []⟩
+
+/-- **idx_only_counterexample.** … and there the results do leave the window: with no tempo_v2 row the counter-pattern
+    returns a span 23 hours after the end of a one-second window (same UTC day), which the real plan does not. -/
+theorem idx_only_counterexample :
+    ((searchRows cexOracles cexDb (planSearchIdxOnly cexReq [])).map (fun r => r.get "timestamp_ns") = [.int 172799000000000]) ∧
+    searchRows cexOracles cexDb (planSearch cexReq []) = [] ∧
+    ((searchRows cexOracles cexDb (planSearchIdxOnly cexReq [(v2name, 0)])) = []) := by
+  decide +kernel
+
+-- non-vacuity: the hypotheses are satisfiable by the real table names (the driver reports for every generated request
+-- whether the classification it uses, `lokiCfg`, satisfies them)
+def cexCfg : Cfg :=
+  ⟨fun t => if t = "tempo_traces" ∨ t = "tempo_traces_dist" then .data else if t = "`db`.tempo_traces_attrs_gin" then .index else .other,
+   fun _ => false, fun _ => false⟩
+example : SearchCfg cexCfg cexReq := by constructor <;> decide
+example : searchConfined cexCfg (winSearch cexReq) (planSearch cexReq [(v2name, 86400)]) = true :=
+  tempo_search_confined _ _ _ (by constructor <;> decide) (by decide) (by decide)
+
+end Qryn.C13
+
+namespace Qryn.C13
+/-- **version_gates_inventory.** Every place under reader/ where the version state decides something (regenerated: each
+    call of `IsVersionSupported`, each other read of a `VersionInfo` field; code inside comments — the turned-off v5
+    branch of `GetLabelMatchersDownsampleRequest` — is not code): exactly the six gates of `SQLIndexQuery.String`, all on
+    `tempo_v2` and the request window, which `Tempo.tagSel` (timestamp column; lower, upper timestamp bound; minimal, maximal
+    duration) and `Tempo.idxQuery` (ORDER BY + LIMIT) have; no planner of another endpoint reads the version state, so
+    their models need no version parameter. The decision expression is the one `Tempo.isVersionSupported` mirrors. -/
+theorem version_gates_inventory :
+    Qryn.Gen.versionGates = List.replicate 6 ("reader/tempo/sqlIndexQuery.go", "String", "tempo_v2", "s.FromNS", "s.ToNS") ∧
+    Qryn.Gen.versionInfoReads = [] ∧
+    Qryn.Gen.versionDecision = "ok && (fromNS >= (time * 1000000000))" := by decide
+end Qryn.C13
+
+/-! ## trace by id, legacy tag names / values (reader/service/tempoService.go), tied by the `model-tempo-legacy` stream -/
+namespace Qryn.C13
+open Qryn Qryn.Sql Qryn.Confine Qryn.Tempo
+
+/-- **tempo_trace_by_id_confined.** `GetQueryRequest` for a request that names both ends (`start`, `end` ≠ 0): the span
+    table is read with `timestamp_ns >= start` and `< end` (and the trace id), the outer select only re-orders that result.
+    Both table layouts. Without `start` / `end` no window was asked for and the statement carries no bound for that end. -/
+theorem tempo_trace_by_id_confined (cfg : Cfg) (q : QueryReq)
+    (h1 : cfg.kind q.tracesTable = .data) (h2 : cfg.kind q.tracesDistTable = .data)
+    (hs : q.startNs ≠ 0) (he : q.endNs ≠ 0) : confined cfg (winQuery q) (queryRequest q) = true :=
+  queryRequest_confined cfg q h1 h2 hs he
+
+/-- **tempo_legacy_tags_unwindowed.** `GET /api/search/tags` and `/api/search/tag/{tag}/values` take no window (the windowed
+    forms are the V2 endpoints, `all_scans_confined_traceql_tags/_values`); their statements read the key/value table with
+    no comparison on the date column at all — whole table, nothing cut off. Explicitly outside "confined to the window". -/
+theorem tempo_legacy_tags_unwindowed (kv : String) (tag : Bytes) :
+    conjuncts (whereOf (tagsRequest kv)) = [] ∧
+    (∀ e ∈ conjuncts (whereOf (valuesRequest kv tag)), mentionsDate e = false) := by
+  refine ⟨rfl, ?_⟩
+  intro e he
+  have : conjuncts (whereOf (valuesRequest kv tag)) = [eq (.raw "key") (.str tag)] :=
+    conjuncts_and_flat _ (by intro e he; simp only [List.mem_singleton] at he; subst he; exact splice_logical _ _ (by decide))
+  rw [this, List.mem_singleton] at he
+  subst he
+  simp [mentionsDate, eq, isDateCol]
+
+end Qryn.C13
+
+/-! ## the Pyroscope read statements (`Prof/Planners.lean`), tied byte for byte to `prof.PlanMergeProfiles / PlanMergeTraces /
+    PlanSelectSeries / PlanSeries / PlanLabelNames / PlanLabelValues` by the `model-prof-plans` stream.
+    `fq` / `mq` are what `getMatchers` makes of the selector list the fingerprint planner resp. the planner itself was given
+    (`Prof.plan`, C17); the theorems hold for every selector list. -/
+namespace Qryn.C13
+open Qryn Qryn.Sql Qryn.Confine Qryn.Prof
+
+/-- **prof_merge_profiles_confined.** `MergeProfilesPlanner` (SelectMergeProfile, AnalyzeQuery): `profiles` is scanned with
+    `timestamp_ns >= From` and `<= To`, the fingerprint sub-query `fp` over `profiles_series_gin` with `date >= date(From − 30 min)`,
+    `date <= date(To)` and no other comparison on the date column. Slack 0, both table layouts, any limit. -/
+theorem prof_merge_profiles_confined (cfg : Cfg) (c : PCtx) (h : ProfCfg cfg c) (fpSels mainSels : List Selector) (fq mq : PQuery)
+    (hf : Prof.plan "" [] [] fpSels = some fq) (_hm : Prof.plan "" [] [] mainSels = some mq) :
+    confined cfg (winProf c) (mergeProfiles c fq.globals fq.kvs mq.globals) = true :=
+  (mergeProfiles_good cfg c h _ _ _ (plan_noDate _ _ _ _ _ hf)).confined
+
+/-- **prof_merge_traces_confined.** `MergeRawPlanner` → `MergeJoinedPlanner` → `MergeAggregatedPlanner`
+    (SelectMergeStacktraces): the only table read is `profiles` in `raw`, with `timestamp_ns >= From` and `< To`, and the
+    `fp` sub-query as above; `pre_joined`, `joined` and the final aggregate read WITH entries only. -/
+theorem prof_merge_traces_confined (cfg : Cfg) (c : PCtx) (h : ProfCfg cfg c) (typeUnit : Bytes) (fpSels mainSels : List Selector)
+    (fq mq : PQuery) (hf : Prof.plan "" [] [] fpSels = some fq) (_hm : Prof.plan "" [] [] mainSels = some mq) :
+    confined cfg (winProf c) (mergeTraces c typeUnit fq.globals fq.kvs mq.globals) = true :=
+  (mergeTraces_good cfg c h typeUnit _ _ _ (plan_noDate _ _ _ _ _ hf)).confined
+
+/-- **prof_select_series_confined.** `SelectSeriesPlanner` over `GetLabelsPlanner` (SelectSeries; any group-by list,
+    aggregation, step): `profiles` with `p.timestamp_ns >= From`, `<= To`; `profiles_series` (labels) and
+    `profiles_series_gin` (fp) with the two date bounds. -/
+theorem prof_select_series_confined (cfg : Cfg) (c : PCtx) (h : ProfCfg cfg c) (typeUnit : Bytes) (avg : Bool) (step : Int)
+    (groupBy : List Bytes) (fpSels mainSels : List Selector) (fq mq : PQuery)
+    (hf : Prof.plan "" [] [] fpSels = some fq) (hm : Prof.plan "" [] [] mainSels = some mq) :
+    confined cfg (winProf c) (selectSeries c typeUnit avg step (getLabels c groupBy fq.globals fq.kvs mq.globals) mq.globals) = true :=
+  (selectSeries_good cfg c h typeUnit avg step groupBy _ _ _ (plan_noDate _ _ _ _ _ hf) (plan_noDate _ _ _ _ _ hm)).confined
+
+/-- **prof_series_confined.** `PlanSeries` for one selector set (with or without label names; without any selector the
+    whole `profiles_series` of the window's days): the two date bounds on every scan. -/
+theorem prof_series_confined (cfg : Cfg) (c : PCtx) (h : ProfCfg cfg c) (labels : List Bytes) :
+    confined cfg (winProf c) (Prof.planSeries c labels none) = true ∧
+    ∀ (sels : List Selector) (q : PQuery), Prof.plan "" [] [] sels = some q →
+      confined cfg (winProf c) (Prof.planSeries c labels (some (q.globals, q.kvs))) = true := by
+  refine ⟨(profSeries_good cfg c h labels none (by intro p hp; cases hp)).confined, fun sels q hq => ?_⟩
+  apply GoodM.confined
+  apply profSeries_good cfg c h
+  intro p hp
+  injection hp with hp
+  subst hp
+  exact plan_noDate _ _ _ _ _ hq
+
+/-- **prof_labels_union_confined.** LabelNames / LabelValues WITH selector sets: `fp` is the UNION ALL of one selector statement
+    per set — each an index scan of `profiles_series_gin` with the two date bounds (`selectorSel`) — and the main select scans
+    the index with the two date bounds and `fingerprint IN fp`. -/
+theorem prof_labels_union_confined (cfg : Cfg) (c : PCtx) (h : ProfCfg cfg c) (col : String) (label : Option Bytes)
+    (scripts : List (List Selector × PQuery)) (hq : ∀ p ∈ scripts, Prof.plan "" [] [] p.1 = some p.2) :
+    unionConfined cfg (winProf c) (labelsUnion c col label (scripts.map (fun p => (p.2.globals, p.2.kvs)))) = true := by
+  apply labelsUnion_confined cfg c h
+  intro p hp g hg
+  obtain ⟨sq, hsq, rfl⟩ := List.mem_map.mp hp
+  exact plan_noDate _ _ _ _ _ (hq sq hsq) g hg
+
+/-- **prof_series_union_confined.** `PlanSeries` for two or more selector sets: every operand of the `pre_distinct` union
+    (one `TimeSeriesSelectPlanner` statement per set) scans `profiles_series` with the two date bounds, the hoisted `fp` entry
+    is the first set's selector statement, the selects over them read WITH entries only. -/
+theorem prof_series_union_confined (cfg : Cfg) (c : PCtx) (h : ProfCfg cfg c) (labels : List Bytes)
+    (scripts : List (List Selector × PQuery)) (hq : ∀ p ∈ scripts, Prof.plan "" [] [] p.1 = some p.2) :
+    unionConfined cfg (winProf c) (seriesUnion c labels (scripts.map (fun p => (p.2.globals, p.2.kvs)))) = true := by
+  apply seriesUnion_confined cfg c h
+  intro p hp g hg
+  obtain ⟨sq, hsq, rfl⟩ := List.mem_map.mp hp
+  exact plan_noDate _ _ _ _ _ (hq sq hsq) g hg
+
+/-- **prof_analyze_query_confined.** `ProfileSizePlanner` over `MergeProfilesPlanner` (AnalyzeQuery): the only table reads are
+    those of the merge-profiles statement (`prof_merge_profiles_confined`); the two bracketed sub-selects in the column list
+    read the WITH entries `pre_profile_size` and `fp`. -/
+theorem prof_analyze_query_confined (cfg : Cfg) (c : PCtx) (h : ProfCfg cfg c) (sels : List Selector) (q : PQuery)
+    (hq : Prof.plan "" [] [] sels = some q) : confined cfg (winProf c) (analyzeQuery c q.globals q.kvs) = true :=
+  (analyzeQuery_good cfg c h _ _ (plan_noDate _ _ _ _ _ hq)).confined
+
+/-- **prof_labels_confined.** LabelNames / LabelValues without a selector: `profiles_series_gin` with the two date bounds. -/
+theorem prof_labels_confined (cfg : Cfg) (c : PCtx) (h : ProfCfg cfg c) (col : String) (label : Option Bytes) :
+    confined cfg (winProf c) (labelsNoSel c col label) = true :=
+  (labelsNoSel_good cfg c h col label).confined
+
+end Qryn.C13
+
+/-! ## the Loki tail (`QueryRangeService.Tail`): one `planLog` statement per tick, for the window `[from, now)` -/
+namespace Qryn.C13
+open Qryn Qryn.Sql Qryn.LogQL Qryn.Confine
+
+/-- the planner context `Tail` hands to the log planner at a tick: `From = from`, `To = time.Now()`, `Limit = 0`,
+    `OrderASC = false`, `Type = 0`; tables and layout of the connection -/
+def tailCtx (base : Ctx) (from_ now : Int) : Ctx :=
+  { base with fromNs := from_, toNs := now, limit := 0, orderAsc := false, tp := 0 }
+
+/-- **tail_scans_confined.** Whatever the earlier ticks returned (`results` = the entry timestamps of each tick's result,
+    in result order), the statement of every tick is the log planner's statement for the window `[from, now)` of that
+    tick — hence confined to it, samples by exact timestamp bounds, index by the covering date bound, both with the
+    logs-or-both type filter (`all_scans_confined_logql`) — and `from` never moves back before the `from` of the first
+    tick (start of the tail − 5 min): a tail never reads older data than its first window. -/
+theorem tail_scans_confined (cfg : Cfg) (base : Ctx) (h : LokiCfg cfg base) (q : LogQuery) (from0 : Int) (results : List (List Int)) :
+    ∀ f ∈ Tail.froms from0 results, from0 ≤ f ∧
+      ∀ now, confined cfg (winOf (tailCtx base f now)) (planLog (tailCtx base f now) q) = true := by
+  intro f hf
+  refine ⟨Tail.froms_ge from0 results f hf, fun now => ?_⟩
+  exact planLog_confined cfg (tailCtx base f now) ⟨h.samples, h.gin, h.ts, h.tsDist⟩ q
+
+/-- **tail_from_advances.** `from` after a tick: not before the old one, and not before any entry of the result. -/
+theorem tail_from_advances (from_ : Int) (tss : List Int) :
+    from_ ≤ Tail.advance from_ tss ∧ ∀ t ∈ tss, t ≤ Tail.advance from_ tss :=
+  ⟨Tail.advance_ge from_ tss, Tail.advance_covers from_ tss⟩
 
 end Qryn.C13
